@@ -1,0 +1,57 @@
+//go:build verif
+// +build verif
+
+package container
+
+// Contracts for govc, the contract-based deductive verifier kept in /verif (see /verif/DESIGN.md).
+// Compiled only under the "verif" build tag.
+//
+// MutexMap against a sequential map: every method is ONE critical section on mm.mut (obligation kinds
+// "guarded": the map and its contents are touched only with the lock held, for writing when they change;
+// "atomic": all accesses of one call lie in a single section; "lock": pairing) and, run alone, has exactly
+// the effect of the sequential operation stated below. Linearizability follows from the two by the
+// standard argument for lock-based objects (each call takes effect atomically inside its section).
+// mhas / mtyp / mval are the map's contents as mathematical arrays over key terms; mkey(k) is the key term
+// of an interface value (dynamic type and payload; equal basic values have equal terms).
+
+//@ guarded container.MutexMap .values by .mut
+
+//@ func (mm *MutexMap) Get
+//@   results r, ok
+//@   requires mm != nil && locksFree()
+//@   ensures[C19] ok == has(mm.values, key) && (ok ==> r == mm.values[key]) && (!ok ==> isNil(r))
+
+//@ func (mm *MutexMap) Insert
+//@   requires mm != nil && mm.values != nil && locksFree()
+//@   ensures[C19] r == !old(has(mm.values, key))
+//@   ensures[C19] r ==> mhas(mm.values) == upd(old(mhas(mm.values)), mkey(key), true) && mtyp(mm.values) == upd(old(mtyp(mm.values)), mkey(key), typ(val)) && mval(mm.values) == upd(old(mval(mm.values)), mkey(key), payload(val)) && mlen(mm.values) == old(mlen(mm.values)) + 1
+//@   ensures[C19] !r ==> mhas(mm.values) == old(mhas(mm.values)) && mtyp(mm.values) == old(mtyp(mm.values)) && mval(mm.values) == old(mval(mm.values)) && mlen(mm.values) == old(mlen(mm.values))
+//@   modifies map(mm.values)
+
+//@ func (mm *MutexMap) Set
+//@   requires mm != nil && mm.values != nil && locksFree()
+//@   ensures[C19] mhas(mm.values) == upd(old(mhas(mm.values)), mkey(key), true) && mtyp(mm.values) == upd(old(mtyp(mm.values)), mkey(key), typ(val)) && mval(mm.values) == upd(old(mval(mm.values)), mkey(key), payload(val))
+//@   ensures[C19] mlen(mm.values) == old(mlen(mm.values)) + ite(old(has(mm.values, key)), 0, 1)
+//@   modifies map(mm.values)
+
+//@ func (mm *MutexMap) Remove
+//@   requires mm != nil && locksFree()
+//@   ensures[C19] mm.values != nil ==> mhas(mm.values) == upd(old(mhas(mm.values)), mkey(key), false) && mlen(mm.values) == old(mlen(mm.values)) - ite(old(has(mm.values, key)), 1, 0)
+//@   modifies map(mm.values)
+
+//@ func (mm *MutexMap) Len
+//@   requires mm != nil && locksFree()
+//@   ensures[C19] r == mlen(mm.values)
+
+//@ func (mm *MutexMap) Keys
+//@   requires mm != nil && locksFree() && (mm.values != nil ==> mlen(mm.values) <= 1048576)
+//@   loop 0 invariant keys != nil && fresh(keys)
+//@   modifies new([]interface{})
+
+//@ func (mm *MutexMap) Values
+//@   requires mm != nil && locksFree() && (mm.values != nil ==> mlen(mm.values) <= 1048576)
+//@   loop 0 invariant values != nil && fresh(values)
+//@   modifies new([]interface{})
+
+//@ func NewMutexMap
+//@   ensures[C19] r != nil && fresh(r) && r.values != nil && mlen(r.values) == 0
